@@ -102,6 +102,7 @@ type Controller struct {
 	Ticks      int64
 	TickBudget int64 // 0 = unlimited
 	Yields     int64
+	direct     bool // Direct mode: a single goroutine runs the tested code
 	// CallBudget bounds the number of intercepted system calls (0 = unlimited). A loop that
 	// re-opens or re-maps a file on every iteration ends in the real world only by accident
 	// (descriptor or mapping exhaustion); with a call budget it is reported as unbounded.
@@ -252,8 +253,26 @@ func Y[T any](site string, x T) T {
 	return x
 }
 
+// Deadlock is the panic value raised in direct mode when a mutex cannot be
+// acquired: the only goroutine running the tested code would block forever.
+type Deadlock struct{ Site string }
+
+func (d Deadlock) Error() string {
+	return "vhook: deadlock: " + d.Site + " waits for a mutex that is never released (it is held by the calling goroutine itself)"
+}
+
 func Lock(site string, mu *sync.Mutex) {
 	c := active.Load()
+	if c != nil && c.direct {
+		// one goroutine runs the tested code: a mutex that stays locked is held by that goroutine
+		for i := 0; !mu.TryLock(); i++ {
+			if i > 2000 {
+				panic(Deadlock{site})
+			}
+			time.Sleep(time.Millisecond)
+		}
+		return
+	}
 	if c.managed() == nil {
 		mu.Lock()
 		return
@@ -755,6 +774,7 @@ func TimeAfterFunc(site string, d time.Duration, f func()) *time.Timer {
 // direct mode (no scheduling: yields are no-ops; plan, log and tick budget
 // apply). It recovers a panic raised by f and returns it with its stack.
 func (c *Controller) Direct(f func()) (panicVal any, stack string) {
+	c.direct = true
 	c.Install()
 	old := debug.SetPanicOnFault(true)
 	defer func() {
